@@ -45,6 +45,7 @@ class Ctx:
         self.lib = self.crates.get('lib')
         self.bin = self.crates.get('bin')
         self.obs = []
+        self.undecided = []
         self._keys = {}
         self.stats = {'functions_inspected': set(), 'call_sites': 0, 'paths': 0}
         self.repo = repo or extract.REPO
@@ -73,10 +74,23 @@ class Ctx:
         self.obs.append(o)
         return o
 
-    def anchor_lost(self, rule, anchor, detail=''):
-        return self.bad(rule, 'anchor-lost:%s:%s' % (rule, anchor),
-                        'the code this rule decides must be present (fail closed, never pass vacuously)',
-                        '', 'ANCHOR-LOST: cannot find %s %s' % (anchor, detail))
+    def anchor_lost(self, rule, anchor, detail='', hard=False):
+        """the construct a rule decides was not found.
+        hard: a public API function, the binary's facts, an instance-graph root or a documentation anchor is
+              gone — the property cannot be decided at all: fail closed (ANCHOR-LOST violation).
+        soft (default): the anchored function exists but the construct inside it has a shape the rule does
+              not recognise (a refactor, or a rewrite): reported as `not-proved` with a NOTE, never as an
+              alarm — an unrecognised shape is not evidence that the behaviour changed."""
+        if hard:
+            return self.bad(rule, 'anchor-lost:%s:%s' % (rule, anchor),
+                            'the code this rule decides must be present (fail closed, never pass vacuously)',
+                            '', 'ANCHOR-LOST: cannot find %s %s' % (anchor, detail))
+        o = Ob(rule, self._uniq('shape-unrecognised:%s:%s' % (rule, anchor)), 'not-proved',
+               'the construct this rule decides must have a recognised shape to be decided', '',
+               'NOT DECIDED: %s not found in a recognised shape %s' % (anchor, detail), kind='S')
+        self.obs.append(o)
+        self.undecided.append(o)
+        return o
 
     def fn(self, crate, suffix, rule=None):
         """unique function by def-path suffix; records inspection; anchor-lost on failure"""
@@ -84,7 +98,12 @@ class Ctx:
         f = c.one(suffix) if c else None
         if f is None:
             if rule:
-                self.anchor_lost(rule, '%s::%s' % (crate, suffix))
+                import inline
+                vis = inline.known().get(crate + '_vis', {})
+                private_mods = ('solve::', 'regret::', 'compact::', 'split::', '<solve::', '<compact::', '<split::', '<regret::')
+                public = crate == 'lib' and any(v == 'Public' and not n.startswith(private_mods) for n, v in vis.items() if n == suffix or n.endswith('::' + suffix) or n.endswith(suffix))
+                public = public or (crate == 'bin' and suffix == 'main')
+                self.anchor_lost(rule, '%s::%s' % (crate, suffix), hard=public or c is None)
             return None
         self.stats['functions_inspected'].add(f.name)
         return f
@@ -118,8 +137,8 @@ class SubCtx:
     def sres(self, cond, rule, key, *a, **kw):
         return self._ctx.sres(cond, self._r(rule), self._r(key), *a, **kw)
 
-    def anchor_lost(self, rule, anchor, detail=''):
-        return self._ctx.anchor_lost(self._r(rule), anchor, detail)
+    def anchor_lost(self, rule, anchor, detail='', hard=False):
+        return self._ctx.anchor_lost(self._r(rule), anchor, detail, hard=hard)
 
     def fn(self, crate, suffix, rule=None):
         return self._ctx.fn(crate, suffix, self._r(rule))
@@ -245,6 +264,9 @@ def main(argv):
     n_ok = sum(1 for o in obs if o['status'] in ('ok', 'proved'))
     print('%s %s: %d obligations, %d ok/proved, %d violated (%d known), %d not-proved (S-rules), %.1fs' % (
         pid, tier, len(obs), n_ok, len(viol), len(listed), sum(1 for o in obs if o['status'] == 'not-proved'), wall))
+    for o in obs:
+        if o['kind'] == 'S' and o['key'].startswith('shape-unrecognised:'):
+            print('NOTE: %s — %s' % (o['key'], o['detail']))
     rc = 0
     for i, o in enumerate(new):
         rp = write_replay(pid, i, o)
